@@ -164,7 +164,7 @@ fn enc_archive(r: &mut Rng) -> (Vec<u8>, Vec<u8>) {
 
 /// a `kind=interrupted` fault on an op whose model does not describe std's retry loops
 fn intr_unmodelled(op: &str, a: &std::collections::BTreeMap<String, String>) -> bool {
-    (op == "fault.read" || op == "fault.write") && a.get("kind").map(|s| s.as_str()) == Some("interrupted") && a.get("k").map(|s| s.as_str()) != Some("none")
+    op == "fault.write" && a.get("kind").map(|s| s.as_str()) == Some("interrupted") && a.get("k").map(|s| s.as_str()) != Some("none")
 }
 
 fn k_of(a: &std::collections::BTreeMap<String, String>) -> Flt {
@@ -628,7 +628,7 @@ impl Stream for Fault {
 
     fn gen(&self, seed: u64, tier: &str) -> GenOut {
         let mut g = GenOut::default();
-        g.rule = "scenarios: (read) open + read every entry of small stored archives from the independent builder (prefix, ZIP64 end records, descriptors, comments) and the writer; (write) stored call sequences incl. directories, symlinks, extra data (local and central-only), comments, aligned entries, raw copies into the faulting sink, Write::flush (stored entries, extra-data mode, closed writer), finish/drop, second finish, and append onto bases (writer-made and from the independent builder) - one `fam.<family>` counter each; compressing / ZipCrypto entries with the codec tables; for each scenario the fault-free run and then a hard error injected at EVERY I/O call index k (exhaustive per scenario), its io::ErrorKind rotating over 8 kinds incl. Interrupted (`kind.*` counters; scenarios that open an archive: every k also with InvalidInput, the kind get_directory_counts inspects; Interrupted is compared with the model on the streaming ops - M.retried - and judged by the oracle alone on fault.read / fault.write); (stream) read_zipfile_from_stream with a consumer that asks for `consume` bytes of each entry and drops it, compared call by call with Model.streamEntryCI (stored entries exact; deflate / bzip2 / zstd entries with the decoders' measured pull pattern pulled= / cbuf=; one nested-archive scenario behind 64 KiB drain reads = K-J, one incompressible entry spanning several decoder pulls and drain reads), and the same streams through ZipStreamReader::visit (fault.visit, Model.visitFile / drainE / visitCentral: no known finding there). non-trivial = a fault run (k given)".into();
+        g.rule = "scenarios: (read) open + read every entry of small stored archives from the independent builder (prefix, ZIP64 end records, descriptors, comments) and the writer; (write) stored call sequences incl. directories, symlinks, extra data (local and central-only), comments, aligned entries, raw copies into the faulting sink, Write::flush (stored entries, extra-data mode, closed writer), finish/drop, second finish, and append onto bases (writer-made and from the independent builder) - one `fam.<family>` counter each; compressing / ZipCrypto entries with the codec tables; for each scenario the fault-free run and then a hard error injected at EVERY I/O call index k (exhaustive per scenario), its io::ErrorKind rotating over 8 kinds incl. Interrupted (`kind.*` counters; scenarios that open an archive: every k also with InvalidInput, the kind get_directory_counts inspects; Interrupted is compared with the model on the streaming ops - M.retried - and on fault.read - the MI instance of the generic parsers, openArchiveI + byIndexReadB with a bare-read consumer - and judged by the oracle alone on fault.write); (stream) read_zipfile_from_stream with a consumer that asks for `consume` bytes of each entry and drops it, compared call by call with Model.streamEntryCI (stored entries exact; deflate / bzip2 / zstd entries with the decoders' measured pull pattern pulled= / cbuf=; one nested-archive scenario behind 64 KiB drain reads = K-J, one incompressible entry spanning several decoder pulls and drain reads), and the same streams through ZipStreamReader::visit (fault.visit, Model.visitFile / drainE / visitCentral: no known finding there). non-trivial = a fault run (k given)".into();
         let nscen = if tier == "thorough" { 2000 } else { 80 };
         // a writer-made archive: a plain call sequence, finished
         let finished = |r: &mut Rng| -> Vec<u8> {
@@ -769,9 +769,9 @@ impl Stream for Fault {
     fn run(&self, line: &str) -> String {
         let (op, a) = parse_line(line);
         let k = k_of(&a);
-        // `Interrupted` inside std's retry loops is described by the model only for the streaming ops (`M.retried`);
-        // `Model.readExact` / `writeAll` treat every kind as a hard failure (known model limitation, DESIGN R9): on the
-        // seekable reader and the writer such a fault is judged by the oracle alone
+        // `Interrupted` inside std's retry loops is described by the model for the streaming ops (`M.retried`) and the
+        // seekable reader (`Model/Interrupted.lean`: the generic parsers at `MI`; this harness's own entry-reading loop in
+        // `run_read` is a bare `read` loop, which does not retry - modelled as such: `byIndexReadB`)
         if intr_unmodelled(&op, &a) { return "oracle-only".into(); }
         match op.as_str() {
             "fault.read" => {
